@@ -4,7 +4,10 @@ go 1.22.0
 
 toolchain go1.23.5
 
-require github.com/spikeekips/mitum v0.0.0
+require (
+	github.com/spikeekips/mitum v0.0.0
+	github.com/syndtr/goleveldb v1.0.1-0.20210819022825-2ae1ddf74ef7
+)
 
 require (
 	github.com/Masterminds/semver/v3 v3.3.0 // indirect
@@ -59,7 +62,6 @@ require (
 	github.com/ryanuber/go-glob v1.0.0 // indirect
 	github.com/sean-/seed v0.0.0-20170313163322-e2103e2c3529 // indirect
 	github.com/stretchr/testify v1.9.0 // indirect
-	github.com/syndtr/goleveldb v1.0.1-0.20210819022825-2ae1ddf74ef7 // indirect
 	github.com/twitchyliquid64/golang-asm v0.15.1 // indirect
 	github.com/zeebo/blake3 v0.2.4 // indirect
 	golang.org/x/arch v0.11.0 // indirect
